@@ -31,7 +31,7 @@ pub fn run_count(prop: &str, tier: Tier) -> u64 {
         "C11" => (16000, 160000),
         "C12" => (16000, 160000),
         "C13" => (12000, 120000),
-        "C14" => (1400, 14000),
+        "C14" => (2500, 20000),
         "C17" => (10000, 100000),
         "C18" => (14000, 140000),
         "C20" => (16000, 160000),
